@@ -328,6 +328,8 @@ class C03World(PcWorld):
                 self.violation("C03", "current-directions-not-complementary", "%s mid=%s: %s has %s, %s has %s" % (
                     tag, sec.mid, offerer, a.currentDirection, answerer, b.currentDirection))
         self.log.add("negotiated", tag, offerer, len(o.sections), tuple(s.kind for s in o.sections))
+        self.note_state("%s|off=%s|%s|%s>%s" % (tag, offerer, ",".join(s.kind[0] + (s.direction or "-")[:5] for s in o.sections),
+                                             self.cfg[offerer]["bundle"], self.cfg[answerer]["bundle"]))
         return "ok"
 
     def neg_fail(self, tag, who, call, exc):
